@@ -170,6 +170,7 @@ LeafAll == [k |-> "all"]
 LeafEmpty == [k |-> "empty"]
 Cl(o, q) == [o |-> o, q |-> q]
 BoolQ(cl, m) == [k |-> "bool", cl |-> cl, msm |-> m]
+BoolQE(cl, m) == [k |-> "bool", cl |-> cl, msm |-> m, explicit |-> TRUE]   \* with_minimum_required_clauses
 BasicLeaves == {LeafA, LeafB, LeafC, LeafR, LeafAll, LeafEmpty}
 \* nested boolean leaves (depth 2); the msm is what BooleanQuery::new chooses (1 iff only Should clauses)
 NestedLeaves == {BoolQ(<<Cl("must", LeafA), Cl("mustnot", LeafB)>>, 0),
@@ -177,7 +178,10 @@ NestedLeaves == {BoolQ(<<Cl("must", LeafA), Cl("mustnot", LeafB)>>, 0),
                  BoolQ(<<Cl("should", LeafB)>>, 1),
                  BoolQ(<<Cl("mustnot", LeafA)>>, 0),
                  BoolQ(<<Cl("must", LeafAll), Cl("should", LeafC)>>, 0),
-                 BoolQ(<<Cl("must", LeafB), Cl("must", LeafR)>>, 0)}
+                 BoolQ(<<Cl("must", LeafB), Cl("must", LeafR)>>, 0),
+                 \* minimum_number_should_match below the number of Should clauses (the Disjunction scorer), set explicitly
+                 BoolQE(<<Cl("should", LeafA), Cl("should", LeafB), Cl("should", LeafC)>>, 2),
+                 BoolQE(<<Cl("should", LeafA), Cl("should", LeafB), Cl("should", LeafC), Cl("should", LeafR)>>, 3)}
 Occurs == {"must", "should", "mustnot"}
 
 CONSTANTS MaxClauses,    \* the machine builds boolean queries of at most MaxClauses clauses
